@@ -1076,14 +1076,22 @@ func checkListingStableAndEventIds(c *Ctx) {
 			}
 		}
 		hasID, other := false, ""
-		recvName := typeShortName(f.Signature.Recv().Type())
-		if i := strings.LastIndex(recvName, "."); i >= 0 {
-			recvName = recvName[i+1:]
+		// the value wrapped: the (embedded) first field of the receiver's struct
+		wrapped := ""
+		if st := derefStruct(f.Signature.Recv().Type()); st != nil && st.NumFields() > 0 {
+			wrapped = typeShortName(st.Field(0).Type())
 		}
-		for _, fl := range flds {
+		for _, t := range tokensWithPrefix(tok, "field:") {
+			i := strings.LastIndex(t, ".")
+			if i < 0 {
+				continue
+			}
+			owner, fl := t[:i], t[i+1:]
 			switch {
-			case fl == "ID":
+			case fl == "ID" && (wrapped == "" || owner == wrapped):
 				hasID = true
+			case fl == "ID":
+				other = owner + ".ID"
 			case strings.HasSuffix(fl, "ID") || strings.HasSuffix(fl, "Id") || strings.HasSuffix(fl, "IID"):
 				other = fl
 			}
